@@ -3,6 +3,7 @@ import Srctools.Model.C20
 import Srctools.Model.C20Bvcd
 import Srctools.Model.C20Snd
 import Srctools.Model.C20Vmt
+import Srctools.Model.C20Smd
 import Srctools.Gen.Kvser
 import Srctools.Gen.Tok
 import Srctools.Gen.C20
@@ -23,6 +24,9 @@ big integers as decimal strings.
   {"op":"vmt_quote","s":[cp…]}          → {"r":[cp…]}
   {"op":"bvcd_enc","scene":S,"pool0":[hex…]} → {"r":hex,"pool":[hex…],"strs":[hex…]}   (pool = pool0 + strings in call order)
   {"op":"bvcd_dec","b":hex,"pool":[hex…]}    → {"r":null|S}
+  {"op":"smd_bones","bones":[[[cp],[cp]|null]…]} → {"r":[[cp]…]|null}       (bone names in the index order Mesh.export gives them)
+  {"op":"smd_vertex","v":{"x","y","z","nx","ny","nz","u","v":[cp],"links":[[[cp],[cp]]…]},"known":[[cp]…]}
+        → {"line":[cp…],"parsed":V|null,"norm":V}                         (one vertex line written, read back, normVertex)
   {"op":"vmt_export","m":VMT,"fold":[[cp,[cp]]]} → {"text","toks","lexed","lexok","parsed"}   (Material.export text, the tokens it denotes,
         the tokens the tokenizer model finds in it, Material.parse of it);  VMT = {"shader":[cp],"params":[[[cp],[cp]]],"blocks":[KV],"proxies":[KV]}
   {"op":"vmt_parse","text":[cp],"fold":…}  → {"r":VMT|null}                     (Material.parse on any text)
@@ -357,6 +361,32 @@ def handle (j : Json) : Except String Json := do
   | "vmt_quote" =>
     pure (r (Wire.codesOfStr (vmtQuote Gen.Tok.tables Gen.C20.vmtLead
       (← Wire.strOfCodes (← j.getObjVal? "s")))))
+  | "smd_bones" =>
+    let bs ← (← (← j.getObjVal? "bones").getArr?).toList.mapM fun b => do
+      let a ← b.getArr?
+      let p := a[1]!
+      pure ({ name := ← SJ.strOf a[0]!, parent := ← (if p.isNull then pure none else (SJ.strOf p).map some) } : C20.Smd.Bone)
+    pure (r (match C20.Smd.numberBones bs with
+      | some l => Json.arr (l.map SJ.strJ).toArray
+      | none => Json.null))
+  | "smd_vertex" =>
+    let vj ← j.getObjVal? "v"
+    let f (k : String) : Except String (List Char) := do SJ.strOf (← vj.getObjVal? k)
+    let ls ← (← (← vj.getObjVal? "links").getArr?).toList.mapM fun l => do
+      let a ← l.getArr?
+      pure (← SJ.strOf a[0]!, ← SJ.strOf a[1]!)
+    let vx : C20.Smd.Vertex := { pos := (← f "x", ← f "y", ← f "z"), norm := (← f "nx", ← f "ny", ← f "nz"),
+                                 u := ← f "u", v := ← f "v", links := ls }
+    let known ← (← (← j.getObjVal? "known").getArr?).toList.mapM SJ.strOf
+    let vJ (x : C20.Smd.Vertex) : Json := Json.mkObj [("x", SJ.strJ x.pos.1), ("y", SJ.strJ x.pos.2.1), ("z", SJ.strJ x.pos.2.2),
+      ("nx", SJ.strJ x.norm.1), ("ny", SJ.strJ x.norm.2.1), ("nz", SJ.strJ x.norm.2.2), ("u", SJ.strJ x.u), ("v", SJ.strJ x.v),
+      ("links", Json.arr (x.links.map fun l => Json.arr #[SJ.strJ l.1, SJ.strJ l.2]).toArray)]
+    let line := C20.Smd.vertexLine vx
+    pure (Json.mkObj [("line", Wire.codesOfStr line),
+      ("parsed", match C20.Smd.parseVertexLine (fun b => known.contains b) line with
+        | some x => vJ x
+        | none => Json.null),
+      ("norm", vJ (C20.Smd.normVertex vx))])
   | "vmt_export" =>
     let m ← VJ.vmtOf (← j.getObjVal? "m")
     let fold ← foldOfJ (← j.getObjVal? "fold")
